@@ -21,7 +21,13 @@ func constStringVal(info *types.Info, e ast.Expr) (string, bool) {
 }
 
 // constGuardEdges: edges that entail `key is neither "true" nor "false"`.
-func constGuardEdges(c *Ctx, fc *FCFG) []cfgEdge {
+func constGuardEdges(c *Ctx, fc *FCFG) []cfgEdge { return constGuardEdgesFor(c, fc, "") }
+
+// constGuardEdgesFor: edges that entail the key is not the named constant ("isTrue" / "isFalse"), or —
+// with which == "" — neither of them at once.  A guard written as two tests in a row (`case k.Str ==
+// TrueSymbol, k.Str == FalseSymbol:` in a tagless switch) has no single edge for the conjunction; the
+// store is then shown unreachable without an edge of EACH kind.
+func constGuardEdgesFor(c *Ctx, fc *FCFG, which string) []cfgEdge {
 	strFld := c.LookupField("lisp.LVal.Str")
 	info := fc.Info
 	cls := func(e ast.Expr) (string, bool) {
@@ -45,7 +51,17 @@ func constGuardEdges(c *Ctx, fc *FCFG) []cfgEdge {
 		}
 		return "", false
 	}
-	return fc.edgesEntailing(cls, func(v map[string]bool) bool { return (v["$has:isTrue"] && !v["isTrue"]) && (v["$has:isFalse"] && !v["isFalse"]) })
+	return fc.edgesEntailing(cls, func(v map[string]bool) bool {
+		nt := v["$has:isTrue"] && !v["isTrue"]
+		nf := v["$has:isFalse"] && !v["isFalse"]
+		switch which {
+		case "isTrue":
+			return nt
+		case "isFalse":
+			return nf
+		}
+		return nt && nf
+	})
 }
 
 func init() {
@@ -81,7 +97,20 @@ func init() {
 				edges := constGuardEdges(c, fc)
 				// ... or across the nil result of a key-checking helper that makes the comparison
 				edges = append(edges, c.nilResultGuardEdges(fc, func(h *FCFG) []cfgEdge { return constGuardEdges(c, h) })...)
-				return len(edges) > 0 && !fc.reachableAvoiding(loc.B, edges)
+				if len(edges) > 0 && !fc.reachableAvoiding(loc.B, edges) {
+					return true
+				}
+				// two tests in a row: every path passes an edge refusing `true` and an edge refusing `false`
+				for _, which := range []string{"isTrue", "isFalse"} {
+					w := which
+					es := constGuardEdgesFor(c, fc, w)
+					es = append(es, edges...)
+					es = append(es, c.nilResultGuardEdges(fc, func(h *FCFG) []cfgEdge { return constGuardEdgesFor(c, h, w) })...)
+					if len(es) == 0 || fc.reachableAvoiding(loc.B, es) {
+						return false
+					}
+				}
+				return true
 			}
 			var obs []Obligation
 			ord := map[string]*ordinal{}
@@ -199,7 +228,10 @@ func init() {
 			fc := c.cfgOf(u, nil)
 			var loop *cfg.Block
 			var rng ast.Stmt
-			for _, sl := range fc.loopsOver(func(e ast.Expr) bool { return FieldOfSelector(info, e) == ext }) {
+			for _, sl := range fc.loopsOver(func(e ast.Expr) bool {
+				// the export list itself or a local defined once as it (`exported := src.externals`)
+				return FieldOfSelector(info, e) == ext || FieldOfSelector(info, resolveLocal(info, fd.Body, e)) == ext
+			}) {
 				// the binding loop: the one whose body stores (a look-up-only
 				// loop in front of it is PKG.use-atomic's business)
 				binds := false
@@ -258,8 +290,15 @@ func init() {
 			var newFlag types.Object
 			for _, d := range defs {
 				for _, n := range d.Loc.B.Nodes {
-					if as, ok := n.(*ast.AssignStmt); ok && len(as.Lhs) == 1 && len(as.Rhs) == 1 && isBoolConst(info, as.Rhs[0], true) {
-						newFlag = identObj(info, as.Lhs[0])
+					// `newpkg = true`, also as one half of a tuple assignment (`pkg, created = Define(name), true`)
+					if as, ok := n.(*ast.AssignStmt); ok && len(as.Lhs) == len(as.Rhs) {
+						for i := range as.Rhs {
+							if isBoolConst(info, as.Rhs[i], true) {
+								if o := identObj(info, as.Lhs[i]); o != nil {
+									newFlag = o
+								}
+							}
+						}
 					}
 				}
 			}
